@@ -285,6 +285,11 @@ func (e *Exec) resync(get StoreGetter) {
 
 func (e *Exec) Run() {
 	defer e.Trace.Close()
+	runSkipUpgrades = nil
+	for _, h := range e.S.Config.SkipUpgradeHeights {
+		runSkipUpgrades = append(runSkipUpgrades, int(h))
+	}
+	defer func() { runSkipUpgrades = nil }()
 	defer func() {
 		if e.KeepApps {
 			return
@@ -1492,6 +1497,14 @@ func (e *Exec) judgeTx(p *pendingTx, bt *BuiltTx, pred *prediction, accepted boo
 		}
 		if isStatelessRejection(tr) {
 			prop, class = "C16", "stateless.rejected_inside_limits"
+		} else if e.Prop == "C15" {
+			// the request is only refusable if a message of an earlier FAILED transaction had taken effect on the entity
+			all, _ := flattenMsgs(bt.Msgs)
+			for _, m := range all {
+				if e.touchedByFailed[entityOf(m)] {
+					prop = "C15"
+				}
+			}
 		}
 		e.viol(prop, class, entityOf(first), "tx %s was rejected (code %d/%s: %s) although every statement allows it: %s", desc, tr.Code, tr.Codespace, trunc(tr.Log, 200), msgJSON(e.Env, first))
 		return
